@@ -153,14 +153,6 @@ def spec_unary(enc, base, a):
 
 def spec_binary(enc, base, a, b):
     a, b = X.T(a, 32), X.T(b, 32)
-    if base == "Add" and a == b:
-        # x + x == 2 * x exactly in IEEE arithmetic (helps the solver below
-        # nested multiplications/divisions)
-        base, a = "Mul", X.bv(0x40000000, 32)
-    if base in ("Add", "Mul") and b < a:
-        # IEEE addition and multiplication are commutative (NaN payloads aside):
-        # a canonical operand order makes commuted terms syntactically equal
-        a, b = b, a
     if base in ("Add", "Sub", "Mul", "Div"):
         return X.fop(base.lower(), a, b), None
     if base in ("Min", "Max", "And", "Or"):
@@ -228,7 +220,10 @@ def spec_program(enc, ops, inputs):
                     choices.append(ch)
                 if base in ("Min", "Max"):
                     minmax = True
-            cur[int(t[1])] = enc.define("e", v)
+            # inline (no define-fun): the machine-code side builds inline terms too,
+            # so structurally equal values are equal strings and the canonical
+            # operand order of commutative ops agrees on both sides
+            cur[int(t[1])] = v
     return outs, choices, minmax
 
 
@@ -265,7 +260,6 @@ def make_call_hook(enc, names, abi):
             r = "(%s %s %s)" % (enc.uf("f_" + nm, 2), X.T(a, 32), X.T(b, 32))
         else:
             r = "(%s %s)" % (enc.uf("f_" + nm, 1), X.T(a, 32))
-        r = enc.define("call", r)
         m.calls += 1
         for g in CALLER_SAVED:
             m.g[g] = m.junk(64, "clob_g")
@@ -846,7 +840,7 @@ def spec_interval_program(enc, ops, inputs):
                     nm = enc.fresh("ch")
                     enc.lines.append("(define-fun %s () (_ BitVec 8) %s)" % (nm, ch))
                     choices.append(nm)
-            cur[int(t[1])] = (enc.define("el", X.T(v[0], 32)), enc.define("eu", X.T(v[1], 32)))
+            cur[int(t[1])] = (X.T(v[0], 32), X.T(v[1], 32))
     return outs, choices
 
 
@@ -873,7 +867,7 @@ def make_interval_call_hook(enc, names, abi):
                 m.y[reg][l] = m.junk(32, "clob_y")
         for f in m.fl:
             m.fl[f] = m.symb("clob_f%d_%s" % (m.calls, f))
-        m.y[0][0], m.y[0][1] = enc.define("calll", r[0]), enc.define("callu", r[1])
+        m.y[0][0], m.y[0][1] = r[0], r[1]
     return hook
 
 
@@ -906,8 +900,12 @@ class IntervalModel(PointModel):
         self.inputs = [(m0.load32(A_BASE + 8 * i), m0.load32(A_BASE + 8 * i + 4)) for i in range(sc.nvars)]
         self.init_choice_words = [m0.load32(B_BASE + 4 * i) for i in range(self.nwords)]
         self.init_simplify = m0.load32(C_BASE)
-        self.paths = sym_exec(sc.code, m0, make_interval_call_hook(enc, names, self.abi))
-        self.outs, self.choices = spec_interval_program(enc, sc.ops, self.inputs)
+        X.NORMALIZE = False
+        try:
+            self.paths = sym_exec(sc.code, m0, make_interval_call_hook(enc, names, self.abi))
+            self.outs, self.choices = spec_interval_program(enc, sc.ops, self.inputs)
+        finally:
+            X.NORMALIZE = True
         self.has_calls = any(p.m.calls for p in self.paths)
 
     def property_goal(self):
